@@ -1,13 +1,14 @@
-\* M: every table of up to 5 specs over 1-bit units (sizes 1 and 2 units), both fetch orders, real leaf threshold 5
+\* M: every table of up to 4 specs over 1-bit units (sizes 1 and 2 units), both fetch orders, leaf threshold 3 (thorough: the real 5)
 CONSTANTS
   U = 1
   Sizes = {1, 2}
   Endians <- EBoth
-  LeafMax = 5
-  MaxSpecs = 5
+  LeafMax = 3
+  MaxSpecs = 4
   HookVals = {TRUE}
   MinW = 1
   CallExtra = 0
+  AnyN = 0
   Dev = {}
   Gen = FALSE
 INIT Init
